@@ -12,6 +12,7 @@ D = SPEC / "Race"
 F_ALL = {"thr": 5, "tgts": ["a", "b"], "kind": "static", "hint": 9}
 F_DYN3 = {"thr": 3, "tgts": ["a"], "kind": "dyn", "hint": 3}
 F_ERR = {"thr": 1, "tgts": ["a", "b"], "kind": "static", "hint": 1}
+F_SW = {"thr": 5, "tgts": ["a", "b"], "kind": "sw", "hint": 5}
 C1 = {"lvl": 3, "tgt": "a"}
 C2 = {"lvl": 5, "tgt": "b"}
 hit = lambda c, k="event": {"op": "hit", "c": c, "k": k, "inspan": False}
@@ -33,6 +34,13 @@ SCEN = {
     # still be offered both callsites
     "S7": {"collectors": {1: F_ALL, 2: F_ALL, 3: F_ERR},
            "threads": [[new(1), hit(C1), {"op": "drop_default"}, new(3), hit(C2), hit(C1)], [new(2), hit(C2), hit(C1)]]},
+    # a switchable collector (off at first) is switched on by its own thread, which then calls rebuild_interest_cache() as the
+    # documentation demands - while another thread is inside the registry registering its first hits; the rebuild must not be lost
+    "S8": {"collectors": {1: F_SW, 2: F_ERR},
+           "threads": [[new(1), hit(C1), {"op": "switch", "on": True}, hit(C1), hit(C2)], [new(2), hit(C2), hit(C1), hit({"lvl": 4, "tgt": "a"})]]},
+    "S9": {"collectors": {1: F_SW, 2: F_ALL},
+           "threads": [[new(1), hit(C1), {"op": "switch", "on": True}, hit(C2), {"op": "switch", "on": False}, hit(C1)],
+                       [hit({"lvl": 2, "tgt": "b"}), new(2), hit(C2), hit(C1, "span")]]},
 }
 MODEL = {"S1": 2, "S2": 2, "S3": 3}
 
